@@ -219,7 +219,7 @@ func (f *readFile) transmittable(rawLine *bytes.Buffer, length, capacity int,
 	re regex.Regex) (*line.Line, bool) {
 
 	newLine := line.Null()
-	if !re.Match(rawLine.Bytes()) {
+	if !re.Match(withoutTerminator(rawLine)) {
 		f.updateLineNotMatched()
 		f.updateLineNotTransmitted()
 		return newLine, false
@@ -234,6 +234,12 @@ func (f *readFile) transmittable(rawLine *bytes.Buffer, length, capacity int,
 	f.updateLineTransmitted()
 
 	return line.New(rawLine, f.totalLineCount(), f.transmittedPerc(), f.globID), true
+}
+
+// The regex has to be matched against the line's content, but not against the newline
+// terminating it (otherwise 'foo$' would never match and '\s' would match every line).
+func withoutTerminator(rawLine *bytes.Buffer) []byte {
+	return bytes.TrimSuffix(rawLine.Bytes(), []byte{'\n'})
 }
 
 // Check wether log file is truncated. Returns nil if not.
